@@ -46,7 +46,8 @@ pub trait RollingValidBinary<T: IsNone>: Vec1View<T> {
                     sum_b += vb;
                     sum_ab += va * vb;
                 };
-                let res = if n >= min_periods {
+                // the sample covariance needs two observations (and `n - 1` must not underflow)
+                let res = if n >= min_periods && n >= 2 {
                     (sum_ab - (sum_a * sum_b) / n.f64()) / (n - 1).f64()
                 } else {
                     f64::NAN
